@@ -779,7 +779,6 @@ func ruleC17OptionOrder(c *Ctx) {
 	c.Check(len(why) == 0, "c17.option-order", "New", c.P.Pos(f.Pos()), fmt.Sprintf("%d option combinations: rewrites under their flags, quote rewrite first, both before Parse; data shape", n), strings.Join(uniq(why), "; "))
 }
 
-
 // ruleC17TerminationByte: the byte tested for the end of a quoted region is the byte at the
 // scanner's current position, never a look-ahead (escaped) byte.
 func ruleC17TerminationByte(c *Ctx) {
@@ -1100,7 +1099,6 @@ func ruleC17PrepareData(c *Ctx) {
 	}
 }
 
-
 // loopCarried: the phi is (or merges, through other phis) a phi of a loop header.
 func loopCarried(f *ssa.Function, ph *ssa.Phi) bool {
 	hs := map[*ssa.BasicBlock]bool{}
@@ -1178,7 +1176,6 @@ func ruleC17ByteCopy(c *Ctx) {
 	}
 	c.Check(len(why) == 0, "c17.byte-copy", "DoubleQuotesToBackTick", c.P.Pos(f.Pos()), fmt.Sprintf("%d buffer writes; runes written are constants", nWrites), strings.Join(uniq(why), "; "))
 }
-
 
 // isMemoThunk: t is a closure all of whose paths return (the rows captured from run, nil).
 func isMemoThunk(t *Term, run ssa.Value) bool {
@@ -1620,8 +1617,9 @@ func init() { register("C01", ruleC07ScopeArg) }
 
 // with the IdomaticArrays option the sanitised text is rewritten by the bracket locator before it is parsed: its quote
 // and escape handling is part of the sanitizer round trip (C16) as well
-func init() { register("C16", ruleC17BracketGuard, ruleC17BracketEscapeScope, ruleC17QuoteCloseMatches) }
-
+func init() {
+	register("C16", ruleC17BracketGuard, ruleC17BracketEscapeScope, ruleC17QuoteCloseMatches)
+}
 
 // the registry copy is also what keeps the caller's document (C11) and the wrapped root (C17) free of CTE entries
 func init() { register("C11", ruleC07RegistryFresh); register("C17", ruleC07RegistryFresh) }
